@@ -134,7 +134,11 @@ impl PrimalSimplex {
     /// Convert inequality constraints Ax <= b to equality Ax + s = b
     /// Handles variable bounds by substitution
     /// Returns (A_extended, b_extended, c_extended, total_vars)
-    fn to_standard_form(&self, problem: &LpProblem) -> (Matrix, Vec<f64>, Vec<f64>, usize) {
+    ///
+    /// Column layout: n original variables, m constraint slacks, then one slack per
+    /// finite upper bound. The Dual Simplex uses the same form so that basis indices
+    /// returned by one solver mean the same columns in the other.
+    pub(super) fn to_standard_form(&self, problem: &LpProblem) -> (Matrix, Vec<f64>, Vec<f64>, usize) {
         let m = problem.n_constraints;
         let n = problem.n_vars;
         
